@@ -30,8 +30,11 @@ def showLoop : Option (Nat × Nat) → String
   | none => "none"
   | some (a, b) => s!"{a},{b}"
 
+/-- kira's `usize` play head saturates (`saturating_add(1)`), the model's is an unbounded natural: what kira
+    holds is `min position usize::MAX` (exact without a loop region; the generators never walk a looping
+    transport across `usize::MAX`) -/
 def showTransport (t : Transport) : String :=
-  s!"{t.position} {if t.playing then 1 else 0} {showLoop t.loopRegion}"
+  s!"{min t.position 18446744073709551615} {if t.playing then 1 else 0} {showLoop t.loopRegion}"
 
 def faultLine (f : Fault) : String := "fault " ++ f.name
 
